@@ -247,7 +247,7 @@ def all_subgroups(group, n):
     return out
 
 
-def settings():
+def settings(quick=False):
     s3 = math.sqrt(3.)
     c2 = Fraction(8, 3)
     out = []
@@ -258,6 +258,7 @@ def settings():
     out.append(("D4-square", np.eye(2), [[1, 0], [0, 1]], 8))
     out.append(("D6-tria", np.array([[1, 0], [-.5, s3 / 2]]).T, [[2, -1], [-1, 2]], 12))
     out.append(("D6-tria-rot", np.array([[.5, -s3 / 2], [.5, s3 / 2]]).T, [[2, -1], [-1, 2]], 12))
+    if quick: out = [o for o in out if o[0] not in ("Oh-fcc", "D6h-hcp")]      # second settings of the same groups: thorough only
     return out
 
 
@@ -310,7 +311,7 @@ def judge_bases(vb, tb, carts, kv, kt, n):
 def exhaustive(ck, rng):
     terms, metas = [], []
     nsub = {}
-    for name, A, G, order in settings():
+    for name, A, G, order in settings(ck.quick):
         n = len(G)
         grp = automorphisms(G)
         if len(grp) != order: raise RuntimeError("holohedry %s has %d operations, expected %d" % (name, len(grp), order))
